@@ -1,8 +1,8 @@
 from _common import COMMON_NOTE
 
 META = {'title': 'Fast tape loading leaves the machine exactly as the ROM loader would',
- 'lean_modules': ['ZxVerif.Props.C10', 'ZxVerif.Props.C11X'],
- 'extract': ['TapeConsts'],
+ 'lean_modules': ['ZxVerif.Props.C10', 'ZxVerif.Props.C11X', 'ZxVerif.Props.C10X'],
+ 'extract': ['TapeConsts', 'FastLoad'],
  'modelled_code': ['rustzx-core/src/emulator/fastload/tap.rs (fast_load_tap)',
                    'rustzx-core/src/zx/tape/tap.rs (Tap: next_block, next_block_byte, 128-byte buffer, rewind)',
                    'rustzx-core/src/zx/tape/mod.rs (TapeImpl)',
@@ -28,7 +28,10 @@ META = {'title': 'Fast tape loading leaves the machine exactly as the ROM loader
                'block; at the end of the tape the repaired model changes nothing (the code of the pinned commit swapped AF and '
                'reported success: proved as a negation with a witness; repaired in /repo by fix commit fce67ef). The model is tied to the Rust '
                'code on every run by a correspondence check (real Emulator + ROM, component-level Tap) with the '
-               'executable spec adjudicating every disagreement.',
+               'executable spec adjudicating every disagreement; in addition fast_load_tap is translated statement '
+               'by statement from fastload/tap.rs on every run (tools/extract.py, table FastLoad) and the loop, the '
+               'write-back and the whole function assembled from the translated statements are proved equal to the '
+               'model for every state (Props/C10X), so the LD-BYTES refinement is restated about the source text.',
  'level_note': COMMON_NOTE + ' Partial: LD-BYTES itself is a byte-level reading of the ROM routine (validated against '
                'the real ROM by C11/C12 system runs), not derived from the ROM bytes.',
  'timeout_s': {'quick': 600, 'thorough': 6 * 3600}}
